@@ -7,9 +7,12 @@ package main
 import (
 	"encoding/json"
 	"fmt"
+	"io"
 	"math/rand/v2"
+	"net"
 	"os"
 	"strings"
+	"sync/atomic"
 
 	"verifharness/internal/emit"
 	"verifharness/internal/puppet"
@@ -38,6 +41,33 @@ type c05Input struct {
 	Edit   c05Edit  `json:"edit"`
 	// HalfClosed: the receiving endpoint has shut down its own sending direction (CloseWrite) before the stream arrives
 	HalfClosed bool `json:"half_closed,omitempty"`
+	// EOFJoin: the receiver's transport hands the (attacked) stream over in as few Reads as the buffers allow and
+	// returns the last bytes together with io.EOF (legal for a net.Conn; kernel sockets and pipes never do it)
+	EOFJoin bool `json:"eof_join,omitempty"`
+}
+
+// c05Join is the transport wrapper behind EOFJoin: once `on` is set every Read first gathers the rest of the stream.
+type c05Join struct {
+	net.Conn
+	on       *atomic.Bool
+	buf      []byte
+	gathered bool
+}
+
+func (j *c05Join) Read(p []byte) (int, error) {
+	if !j.gathered && !j.on.Load() {
+		return j.Conn.Read(p)
+	}
+	if !j.gathered {
+		j.buf, _ = io.ReadAll(j.Conn)
+		j.gathered = true
+	}
+	n := copy(p, j.buf)
+	j.buf = j.buf[n:]
+	if len(j.buf) == 0 {
+		return n, io.EOF
+	}
+	return n, nil
 }
 
 func c05Content(r c05Rec, i int) (typ byte, frag []byte, coq string) {
@@ -77,11 +107,17 @@ func c05AddCase(out *emit.Out, scenario string, in c05Input) {
 		}
 	}
 	var s *puppet.TLCPSession
-	s = puppet.NewTLCPSessionOpt(tk.BuildTLCP(cfg, nil), targetIsClient, puppet.SessOpt{OnHandshake: func(err error) {
+	var joinOn atomic.Bool
+	sopt := puppet.SessOpt{OnHandshake: func(err error) {
 		if err == nil && in.HalfClosed {
 			s.Target.CloseWrite()
 		}
-	}})
+		joinOn.Store(true)
+	}}
+	if in.EOFJoin {
+		sopt.WrapT = func(c net.Conn) net.Conn { return &c05Join{Conn: c, on: &joinOn} }
+	}
+	s = puppet.NewTLCPSessionOpt(tk.BuildTLCP(cfg, nil), targetIsClient, sopt)
 	p := s.P
 	if targetIsClient {
 		p.Sig, p.Enc = pk.SrvSig, pk.SrvEnc
@@ -164,6 +200,8 @@ func c05AddCase(out *emit.Out, scenario string, in c05Input) {
 	case "swap":
 		recs[e.Rec], recs[e.Rec+1] = recs[e.Rec+1], recs[e.Rec]
 		stream = cat(recs)
+	case "cut": // the stream ends after e.Rec whole records
+		stream = cat(recs[:e.Rec])
 	case "trunc":
 		stream = cat(recs)
 		if e.At < len(stream) {
@@ -319,6 +357,22 @@ func runC05(p params) error {
 	// truncation at every boundary and inside records
 	for at := 0; at < 200; at += 1 + r.IntN(7) {
 		add("truncate", base, c05Edit{Kind: "trunc", At: at})
+	}
+	// the stream cut exactly at every record boundary, and attacked streams, over a transport that returns the last
+	// bytes together with io.EOF
+	for rec := 0; rec <= 4; rec++ {
+		for k := 0; k < 2; k++ {
+			t, su := pick(n)
+			n++
+			c05AddCase(out, "cut-at-boundary", c05Input{Target: t, Suite: su, Recs: base, Edit: c05Edit{Kind: "cut", Rec: rec}, EOFJoin: k == 1})
+		}
+	}
+	for _, e := range []c05Edit{{Kind: "none"}, {Kind: "trunc", At: 60}, {Kind: "trunc", At: 3}, {Kind: "flip", Rec: 1, Off: 9, Mask: 4}, {Kind: "drop", Rec: 1}, {Kind: "dup", Rec: 0}} {
+		for k := 0; k < 2; k++ {
+			t, su := pick(n)
+			n++
+			c05AddCase(out, "last-bytes-with-eof", c05Input{Target: t, Suite: su, Recs: base, Edit: e, EOFJoin: true})
+		}
 	}
 	// injected plaintext / garbage records of every content type at every position
 	for _, typ := range []int{20, 21, 22, 23, 24, 0, 0x80, 255} {
